@@ -73,6 +73,8 @@ type Model struct {
 	TypedVsRef        int
 	MaxDepth          int
 	depth             int
+	ConvFails         int // productions failed by a numeric conversion
+	NumCaptures       int // accepted numeric captures
 	ElidedMatched     int // elided tokens matched explicitly
 	ChoiceAtElided    int // choice points whose start lay on an elided token
 
@@ -388,6 +390,16 @@ func (m *Model) Prod(pi, pos int) (Res, *Node) {
 			m.subsFailed++
 		}
 		return r, nil
+	}
+	// numeric captures are converted when the production completes; a rejected text fails the production there
+	for _, ev := range r.Ev {
+		if k := m.G.Prods[pi].Fields[ev.Field].Kind; k.IsNumeric() && !ev.IsSub {
+			if _, err := NumericValues(k, ev.Vals); err != nil {
+				m.ConvFails++
+				m.subsFailed++
+				return Res{K: Fail, Pos: r.Pos}, nil
+			}
+		}
 	}
 	m.subsDone++
 	return Res{K: Match, Pos: r.Pos, NVals: 1, First: r.First, Last: r.Last},
